@@ -149,7 +149,12 @@ def run(tier):
         ("declarators<=2 x storage and function specifiers (file, block)",
          dict(deriv=2, ctxs=["file", "block"], bases=["int", "sdef"], dims=["3"], params=["void", "int_p"],
               stor='{<<"static">>, <<"extern">>, <<"typedef">>, <<"register">>, <<"static", "inline">>, <<"_Noreturn", "extern">>, '
-                   '<<"_Thread_local", "static">>, <<"auto">>}')),
+                   '<<"_Thread_local", "static">>, <<"auto">>, <<"inline", "_Noreturn">>, <<"_Noreturn", "inline">>, '
+                   '<<"inline", "static", "_Noreturn">>, <<"extern", "_Thread_local">>, <<"_Noreturn", "static", "inline">>}')),
+        ("qualifier order (source order is kept)",
+         dict(deriv=1, bases=["int", "tdef", "sref"],
+              squals='{<<"volatile","const">>, <<"const","volatile">>, <<"volatile","const","volatile">>}',
+              ptrquals='{<<>>, <<"volatile","const">>, <<"const","volatile">>}', dims=["3"], params=["int_p"])),
         ("two declarators sharing specifiers, <=2 wrappers each",
          dict(deriv=2, decls=2, ctxs=["file", "block", "forinit", "member", "typedef"], bases=["int", "sdef", "edef", "tdef"],
               squals='{<<>>, <<"const">>}', dims=["3"], params=["int_p"], ptrquals='{<<>>, <<"const">>}', parens=False)),
